@@ -32,12 +32,12 @@ def _params(rng, cls, dt):
     elif cls == "ALIF":
         p.update(rest_v=rest, reset_v=rng.choice([rest, rest - 5.0]), thresh_eq_v=thr,
                  tc_membrane=rng.choice([5.0, 20.0]), tc_adaptation=[rng.choice([10.0, 50.0, 200.0]) for _ in range(K)],
-                 spike_increment=[rng.choice([0.5, 2.0, 5.0]) for _ in range(K)], resistance=rng.choice([1.0, 5.0]))
+                 spike_increment=[rng.choice([0.5, 2.0, 5.0, -1.0, -3.0]) for _ in range(K)], resistance=rng.choice([1.0, 5.0]))
     elif cls == "GLIF2":
         p.update(rest_v=rest, reset_v_add=rng.choice([0.0, 2.0, 5.0]), reset_v_mul=rng.choice([0.0, 0.2, 0.5]),
                  thresh_eq_v=thr, tc_membrane=rng.choice([5.0, 20.0]),
                  rc_adaptation=[rng.choice([0.01, 0.05, 0.2]) for _ in range(K)],
-                 spike_increment=[rng.choice([0.5, 2.0, 5.0]) for _ in range(K)], resistance=rng.choice([1.0, 5.0]))
+                 spike_increment=[rng.choice([0.5, 2.0, 5.0, -1.0, -3.0]) for _ in range(K)], resistance=rng.choice([1.0, 5.0]))
     elif cls in ("QIF", "Izhikevich"):
         crit = rng.choice([-55.0, -50.0])
         thr2 = rng.choice([-40.0, 30.0, crit])
